@@ -79,6 +79,8 @@ def takeTerm (s : Str) : Option (Nat × Str) :=
   match takeUnit r2 with
   | none => none
   | some (unit, rest) =>
+    -- 18 fractional digits are far below the resolution of every unit; the rest is ignored
+    let fp := fp.take 18
     some (digitsToNat ip * unit + digitsToNat fp * unit / 10 ^ fp.length, rest)
 
 /-- one or more terms consuming the whole text, summed exactly -/
